@@ -63,6 +63,7 @@ fn main() {
         "worker" => worker(argv.get(2).map(|s| s.as_str()).unwrap_or("")),
         "session" => session::main_session(&args),
         "probe" => session::main_probe(&args),
+        "nulls" => session::main_nulls(&args),
         "bvh" => bvhcheck::main_bvh(&args),
         "sched" => sched::main_sched(&args),
         "cli" => clicheck::main_cli(&args),
